@@ -4,6 +4,7 @@
 package vsync
 
 import (
+	"reflect"
 	"sync"
 	"sync/atomic"
 
@@ -12,9 +13,71 @@ import (
 
 type (
 	Locker = sync.Locker
-	Pool   = sync.Pool
 	Cond   = sync.Cond
 )
+
+// Pool is the most adversarial pool the contract of sync.Pool allows, made deterministic:
+// Get hands out the object that was Put last (maximal reuse), and Put poisons what it can see of
+// the object - the elements of a slice (or of the slice a pointer points to) up to its capacity -
+// because after Put the object belongs to whoever Gets it next. Code that keeps using a buffer it
+// has given back therefore reads poison at once, in a sequential run, instead of only under the
+// one interleaving in which another goroutine has already refilled the buffer.
+type Pool struct {
+	New   func() any
+	mu    sync.Mutex
+	items []any
+}
+
+// PoolPoison is what string elements of a returned buffer are overwritten with.
+const PoolPoison = "\x00vsync.Pool: used after Put"
+
+func (p *Pool) Get() any {
+	vsched.Point(vsched.CallerID("Pool.Get", 0), p)
+	p.mu.Lock()
+	var x any
+	if n := len(p.items); n > 0 {
+		x, p.items = p.items[n-1], p.items[:n-1]
+	}
+	p.mu.Unlock()
+	if x == nil && p.New != nil {
+		x = p.New()
+	}
+	return x
+}
+
+func (p *Pool) Put(x any) {
+	vsched.Point(vsched.CallerID("Pool.Put", 0), p)
+	if x == nil {
+		return
+	}
+	poison(x)
+	p.mu.Lock()
+	p.items = append(p.items, x)
+	p.mu.Unlock()
+}
+
+func poison(x any) {
+	v := reflect.ValueOf(x)
+	if v.Kind() == reflect.Ptr && !v.IsNil() && v.Elem().Kind() == reflect.Slice {
+		v = v.Elem()
+	}
+	if v.Kind() != reflect.Slice || v.Cap() == 0 {
+		return
+	}
+	full := v.Slice3(0, v.Cap(), v.Cap())
+	var fill reflect.Value
+	switch full.Type().Elem().Kind() {
+	case reflect.String:
+		fill = reflect.ValueOf(PoolPoison).Convert(full.Type().Elem())
+	case reflect.Uint8:
+		fill = reflect.ValueOf(uint8(0xDB)).Convert(full.Type().Elem())
+	default:
+		fill = reflect.Zero(full.Type().Elem())
+	}
+	for i := 0; i < full.Len(); i++ {
+		full.Index(i).Set(fill)
+	}
+}
 
 func NewCond(l Locker) *Cond { return sync.NewCond(l) }
 
@@ -275,3 +338,7 @@ func (m *Map) Clear() {
 
 // OnceFunc and friends pass through.
 func OnceFunc(f func()) func() { return sync.OnceFunc(f) }
+
+func OnceValue[T any](f func() T) func() T { return sync.OnceValue(f) }
+
+func OnceValues[T1, T2 any](f func() (T1, T2)) func() (T1, T2) { return sync.OnceValues(f) }
